@@ -156,6 +156,17 @@ theorem len_spec (ctx : Ctx) (a0 : Stage) (arr : Bytes) (h0 : a0.run ctx = .ok a
       · simp only [countSep, ArraySeparator]; unfold maxInt64 at *; simp only [NUL] at hc; omega
     simp [he, Comp.run, this, len]
 
+/-- The same for ALL lists, with Go's wrap-around mirrored (no size hypothesis): the count is the
+    number of elements reduced to int64.  (`len_spec` is the case where nothing wraps.) -/
+theorem len_spec_wrapped (ctx : Ctx) (a0 : Stage) (arr : Bytes) (h0 : a0.run ctx = .ok arr) :
+    (lenStage a0).run ctx =
+      .ok (if arr = [] then ascii "0" else itoa (wrap64 ((elems arr).length : Nat))) := by
+  unfold lenStage
+  rw [run_bind_ok ctx _ _ _ h0]
+  have : countSep arr + 1 = (((elems arr).length : Nat) : Int) := by
+    rw [elems_length]; simp [countSep, ArraySeparator, NUL]
+  simp [Comp.run, this]
+
 /-! ## @map, @filter, @reduce -/
 
 /-- `{@map a sub}`: `sub` applied to each element in order, `{0}` = the element, `{1}` empty. -/
